@@ -43,10 +43,7 @@ def check(prop, tier):
     sets = ensure_sets(tier)
     bindir = C.build_harness()
     report = os.path.join(C.WORK, "replay-game-%s-%d.json" % (prop, os.getpid()))
-    cat = subprocess.Popen(["zcat"] + [p for (_, p, _) in sets], stdout=subprocess.PIPE)
-    p = subprocess.run([os.path.join(bindir, "replay_game"), "--out", report], stdin=cat.stdout, stdout=subprocess.PIPE,
-                       stderr=subprocess.PIPE, text=True)
-    cat.wait()
+    p = C.run_on_records([p for (_, p, _) in sets], [os.path.join(bindir, "replay_game"), "--out", report])
     violations = []
     if p.returncode != 0:
         if p.returncode == 2:
